@@ -107,6 +107,99 @@ class ConvertTask(FragmentTask):
             ctx.oblige(f"post.level-header-file-of-box-{c}", names[c] == want, "P", note=f"{names[c]} vs {want}")
 
 
+class ConvertLevel(FragmentTask):
+    """The body of the level loop of chk2plt.convert as a whole, from its first statement to the loop storing the workers'
+    results (real code; skeleton: 3 boxes over 2 state files, gradp and I_R distributed differently; symbolic distinct state
+    offsets, index ranges, gradp / I_R offsets).  The worker is its contract: it reads ITS state file front to back, takes the
+    t-th entry of every per-box argument for the t-th FAB it meets, writes to b_plt, and returns offsets / minima / maxima in
+    that order.  Whatever bookkeeping lies in between: for every box b, with r its rank by state offset among the boxes of its
+    state file, entry r of that file's task carries b's index range, gradp file / offset and I_R file / offset; the level header
+    names for b the file the task writes and the offset / extrema returned at position r."""
+    prop = "C17"
+    reach = "S"
+    qual = CK + "chk2plt.convert"
+    first = staticmethod(FragmentTask.assigns("lv_chk_root"))
+    last = staticmethod(lambda s: isinstance(s, ast.With) and "write_plt_bin_from_chk" in ast.unparse(s))
+
+    def __init__(self):
+        self.name = "convert.level-body"
+
+    def setup(self, ex):
+        ctx = ex.ctx
+        R = z3.RealSort()
+        spaths = ["state_D_00000", "state_D_00001", "state_D_00000"]
+        gpaths = ["gradp_D_00001", "gradp_D_00000", "gradp_D_00001"]
+        ipaths = ["I_R_D_00000", "I_R_D_00000", "I_R_D_00001"]
+        so = [z3.Int(f"soff{i}") for i in range(3)]
+        go = [z3.Int(f"goff{i}") for i in range(3)]
+        io = [z3.Int(f"ioff{i}") for i in range(3)]
+        ctx.assume(z3.And(z3.Distinct(*so), *[x >= 0 for x in so + go + io]))
+        ILO, IHI = z3.Function("ILO", I, I, I), z3.Function("IHI", I, I, I)
+        indices = [[[ILO(i, d) for d in range(3)], [IHI(i, d) for d in range(3)]] for i in range(3)]
+        boxes = {"state_paths": Vec(spaths, "array"), "gradp_paths": Vec(gpaths, "array"), "I_R_paths": Vec(ipaths, "array"),
+                 "state_offsets": Vec(so, "array"), "gradp_offsets": Vec(go, "array"), "I_R_offsets": Vec(io, "array"),
+                 "indices": Vec(indices, "array")}
+        NEW = z3.Function("NEWOFF", I, I, R)
+        MN, MX = z3.Function("WMIN", I, I, I, R), z3.Function("WMAX", I, I, I, R)
+        files = sorted(set(spaths))
+        calls = {}
+
+        def worker(ex_, args, kw):
+            a = args[0]
+            sf = str(a[0]).split("/")[-1]
+            if sf not in files or sf in calls:
+                raise SymRaise("ValueError", f"task for {sf}: not a state file of the level, or a second task for it")
+            calls[sf] = a
+            fi, n = files.index(sf), sum(1 for x in spaths if x == sf)
+            return (Vec([NEW(fi, t) for t in range(n)], "array"),
+                    NDArray([n, 2], lambda ix, fi=fi: MN(fi, to_z3(ix[0]), to_z3(ix[1])), "f8"),
+                    NDArray([n, 2], lambda ix, fi=fi: MX(fi, to_z3(ix[0]), to_z3(ix[1])), "f8"))
+        self.contracts = {CK + "write_plt_bin_from_chk": worker}
+        self_ = Record(CK + "chk2plt", boxes=[boxes], nboxes=[3], state_field_indices=Opaque("sfi", "obj"), do_gradp=True,
+                       do_species_reactions=True, floor_massfracs=False, chkdir="chk", pltdir="plt", nfields_out=2, max_level=0)
+        return {"frame": {"self": self_, "level": 0}, "so": so, "go": go, "io": io, "spaths": spaths, "gpaths": gpaths, "ipaths": ipaths,
+                "indices": indices, "NEW": NEW, "MN": MN, "MX": MX, "files": files, "calls": calls}
+
+    def post(self, ex, inp, out):
+        ctx = ex.ctx
+        ctx.oblige("raises-nothing", out.kind == "ret", "P", note=str(out.exc) if out.kind != "ret" else "")
+        if out.kind != "ret":
+            return
+        from pyvc.ops import as_ndarray, compare
+        v, calls, files, so = out.value, inp["calls"], inp["files"], inp["so"]
+        ctx.oblige("post.one-task-per-state-file", sorted(calls) == files, "P", note=str(sorted(calls)))
+        if sorted(calls) != files:
+            return
+        ao, am, ax = as_ndarray(v["all_offsets_plt"]), as_ndarray(v["all_mins_plt"]), as_ndarray(v["all_maxs_plt"])
+        names = ex.as_iterable(v["all_binfiles_plt"])
+
+        def same(a, b):
+            return compare(ex, "Eq", a, b) if isinstance(b, str) else veq(ctx, a, b)
+        for b in range(3):
+            sf = inp["spaths"][b]
+            fi = files.index(sf)
+            a = calls[sf]
+            peers = [c for c in range(3) if inp["spaths"][c] == sf]
+            ctx.oblige(f"post.task-of-{sf}-writes-the-file-named-for-its-boxes", zand(same(a[6], "plt/Level_0/" + sf.replace("state", "Cell")),
+                                                                                  names[b] == sf.replace("state", "Cell")), "P", note=f"{a[6]} / {names[b]}")
+            per_box = {1: ("gradp-file", "chk/Level_0/" + inp["gpaths"][b]), 2: ("I_R-file", "chk/Level_0/" + inp["ipaths"][b]),
+                       3: ("index-range", inp["indices"][b]), 4: ("gradp-offset", inp["go"][b]), 5: ("I_R-offset", inp["io"][b])}
+            lists = {pos: ex.as_iterable(a[pos]) for pos in per_box}
+            okl = all(isinstance(l, list) and len(l) == len(peers) for l in lists.values())
+            ctx.oblige(f"post.task-of-{sf}-has-one-entry-per-box-of-the-file", okl, "P")
+            if not okl:
+                continue
+            for r in range(len(peers)):
+                # b has rank r among its peers (by state offset)
+                hyp = z3.Sum([z3.If(so[c] < so[b], 1, 0) for c in peers if c != b] + [z3.IntVal(0)]) == r
+                for pos, (label, want) in per_box.items():
+                    ctx.oblige(f"post.box-{b}.{label}-at-its-rank-in-the-state-file", z3.Implies(hyp, to_z3(same(lists[pos][r], want))), "P")
+                ctx.oblige(f"post.box-{b}-gets-the-offset-of-its-own-fab", z3.Implies(hyp, to_z3(ao.elem((b,))) == inp["NEW"](fi, r)), "P")
+                for k in range(2):
+                    ctx.oblige(f"post.box-{b}-gets-the-minima-of-its-own-fab", z3.Implies(hyp, to_z3(am.elem((b, k))) == inp["MN"](fi, r, k)), "P")
+                    ctx.oblige(f"post.box-{b}-gets-the-maxima-of-its-own-fab", z3.Implies(hyp, to_z3(ax.elem((b, k))) == inp["MX"](fi, r, k)), "P")
+
+
 class ChkGeometry(FragmentTask):
     """The statements of CheckpointReader.__init__ that derive the per-level geometry (real code; skeleton: three levels, two
     level-0 boxes with symbolic index ranges, symbolic domain): the grid of level lv has 2**lv times the level-0 extent in every
@@ -172,7 +265,7 @@ class ChkGeometry(FragmentTask):
 
 
 def parent_tasks(tier):
-    return [ConvertTask("state_D_00000"), ConvertTask("state_D_00001"), ConvertScatter(), ChkGeometry()]
+    return [ConvertTask("state_D_00000"), ConvertTask("state_D_00001"), ConvertScatter(), ConvertLevel(), ChkGeometry()]
 
 
 def parent_canaries():
